@@ -33,15 +33,23 @@ inductive Pt where
   | tempfile | encode | sync | seek | fdecode | pdecode | close | remove
 deriving DecidableEq, Repr
 
-abbrev Fault := Option (Pt × Nat)
+/-- The fault oracle: a *list* of faults, armed one after the other.  Only the head is armed: it
+    fires at the `n`-th execution (from 0) of its operation kind `p`, counted from the moment it
+    became armed (the start of the run for the first one, the firing of its predecessor for the
+    others); when it has fired the next one becomes armed.  `[]` = no fault; a singleton is the
+    single fault of the first two waves.  (In sequential mode no temp-file / Encode / Sync / Seek /
+    Decode operation is executed between the firing of a fault and the end of the `Clear` with
+    which the caller recovers, so there the count of a later fault is the count over the cycles
+    that follow the recovery.) -/
+abbrev Fault := List (Pt × Nat)
 
 /-- one execution of an operation of kind `pt`: does it fail, and the remaining oracle -/
 def tick (f : Fault) (pt : Pt) : Bool × Fault :=
   match f with
-  | some (p, k) =>
-    if p = pt then (match k with | 0 => (true, none) | k + 1 => (false, some (p, k)))
+  | (p, k) :: rest =>
+    if p = pt then (match k with | 0 => (true, rest) | k + 1 => (false, (p, k) :: rest))
     else (false, f)
-  | none => (false, none)
+  | [] => (false, [])
 
 inductive WPc where
   | recv | register | encode | sync | ret | done
@@ -69,14 +77,15 @@ structure CState where
   inl : Writer := {}                  -- the caller's own `m.write()` during Finalise
   prog : List Op := []                -- API calls still to make (head = current)
   outs : List Out := []               -- what the caller has observed so far (reversed)
-  flt : Fault := none
+  flt : Fault := []
   onDisk : Nat := 0                   -- run files present in the temporary directory
   dirExists : Bool := true
+  reuse : Bool := false               -- the concurrent caller, too, recovers with `Clear` after an error
 deriving Repr
 
 def initState (conc : Bool) (chunkSize : Nat) (autoClear autoClean : Bool) (prog : List Op)
-    (flt : Fault) : CState :=
-  { m := { chunkSize, autoClear, pool := if conc then 1 else 0 }, conc, autoClean, prog, flt }
+    (flt : Fault) (reuse : Bool := false) : CState :=
+  { m := { chunkSize, autoClear, pool := if conc then 1 else 0 }, conc, autoClean, prog, flt, reuse }
 
 /-- `setErr` is only ever called with a non-nil error (after the fix for C13 a successful Sync
     no longer stores nil) -/
@@ -187,9 +196,12 @@ def finishOp (s : CState) (r : Res) (v : Option Elem) : CState :=
            -- a panic (or a call that never returns) ends the caller's program; after an I/O error
            -- the caller gives up the cycle: it makes no further call until its next `Clear`
            -- (sequential mode), or gives up altogether (concurrent mode: writers of the failed
-           -- cycle may still be running, and `Clear` does not wait for them)
+           -- cycle may still be running, and `Clear` does not wait for them).  With `reuse` the
+           -- concurrent caller recovers like the sequential one (third wave: the model is tied to
+           -- the code for this only under schedules in which every writer of the failed cycle has
+           -- ended before that `Clear`, see notes/C13.md)
            prog := if r = .panic ∨ r = .hang then []
-                   else if r = .ioerr then (if s.conc then [] else s.prog.tail.dropWhile (· != Op.clear))
+                   else if r = .ioerr then (if s.conc && !s.reuse then [] else s.prog.tail.dropWhile (· != Op.clear))
                    else s.prog.tail }
 
 /-- one atomic block of the caller -/
@@ -275,9 +287,9 @@ def step (s : CState) : Nat → Option CState
       | none => none
       | some (w', s') => some { s' with writers := s'.writers.set k w' }
 
-def sys (conc : Bool) (chunkSize : Nat) (autoClear autoClean : Bool) (prog : List Op) (flt : Fault) :
-    Sys CState Nat :=
-  { init := initState conc chunkSize autoClear autoClean prog flt, step := step }
+def sys (conc : Bool) (chunkSize : Nat) (autoClear autoClean : Bool) (prog : List Op) (flt : Fault)
+    (reuse : Bool := false) : Sys CState Nat :=
+  { init := initState conc chunkSize autoClear autoClean prog flt reuse, step := step }
 
 /-- actors that exist in a state (for the fixed finishing policy): writers first, oldest first,
     then the caller — so that the free run after a forced schedule terminates quickly -/
